@@ -163,6 +163,9 @@ impl Drop for Worker { fn drop(&mut self) { let _ = self.child.kill(); let _ = s
 struct Out<W: Write> {
     w: W, worker: Option<Worker>, small: Option<Worker>, n: u64, seen: HashSet<u64>, nontriv: u64,
     counts: HashMap<String, u64>, contracts: u64, max_ms: u128, slowest: String, hard_ms: u64,
+    /// when the worker does not answer, the token forest of the meta-parse is taken in this process, so that the runner can ask the
+    /// model of the unmodified front end how much work the text is (membership in the registered exponential class)
+    parent_forest: bool, last_ms: u128,
 }
 fn hash(s: &str) -> u64 { let mut h: u64 = 0xcbf29ce484222325; for b in s.bytes() { h ^= b as u64; h = h.wrapping_mul(0x100000001b3); } h }
 
@@ -210,7 +213,8 @@ impl<W: Write> Out<W> {
                 *slot = None; // respawned on the next case
                 let ms = t0.elapsed().as_millis();
                 let msg = if what == "TIMEOUT" { format!("no answer within {} ms: worker killed", self.hard_ms) } else { "worker process died (native stack overflow or abort)".to_string() };
-                (what.to_string(), format!("{}\t\t-\tms={};docs=-", what, ms), vec![msg])
+                let forest = if self.parent_forest { forest_of(text) } else { "-".to_string() };
+                (what.to_string(), format!("{}\t\t{}\tms={};docs=-", what, forest, ms), vec![msg])
             }
         };
         writeln!(self.w, "{}\t{}", case, line).unwrap();
@@ -221,6 +225,7 @@ impl<W: Write> Out<W> {
         if self.seen.insert(hash(text)) && class != "rules" { self.nontriv += 1; }
         let ms = t0.elapsed().as_millis();
         if ms > self.max_ms { self.max_ms = ms; self.slowest = case.chars().take(120).collect(); }
+        self.last_ms = ms;
         class
     }
     fn summary(&mut self) {
@@ -638,6 +643,143 @@ fn cycles<W: Write>(out: &mut Out<W>, rng: &mut Rng, n: u64, extras: bool) {
 }
 
 // ------------------------------------------------------------------------------------------------
+// ladders: chains of rules in which every rule mentions the next one several times
+// ------------------------------------------------------------------------------------------------
+/// the token forest of the meta-parse, taken in this process on a large stack (`-` when the text does not parse)
+fn forest_of(text: &str) -> String {
+    let t = text.to_string();
+    let h = std::thread::Builder::new().stack_size(STACK).spawn(move || {
+        match catch(|| parser::parse(Rule::grammar_rules, &t)) {
+            Ok(Ok(pairs)) => { let mut o = String::new(); forest_s(pairs, &mut o); if o.is_empty() { "()".to_string() } else { o } }
+            _ => "-".to_string(),
+        }
+    });
+    h.ok().and_then(|h| h.join().ok()).unwrap_or_else(|| "-".to_string())
+}
+
+/// how a rule mentions the next one ({X}): the body with two mentions, and what one more mention appends.  One entry per operator
+/// through which the validator's and the optimizer's questions (can it fail, does it progress, where does it start, does it touch
+/// the stack) travel: sequence, choice, optional, repetitions, counts, predicates, PUSH
+const LAD_LINKS: [(&str, &str); 22] = [
+    ("{X} ~ {X}", " ~ {X}"),
+    ("{X} ~ \";\" ~ {X}", " ~ \",\" ~ {X}"),
+    ("\"(\" ~ {X} ~ \",\" ~ {X}", " ~ \",\" ~ {X}"),
+    ("{X} | {X}", " | {X}"),
+    ("{X} ~ \"a\" | {X} ~ \"b\"", " | {X} ~ \"c\""),
+    ("\"a\" ~ {X} | \"b\" ~ {X}", " | \"c\" ~ {X}"),
+    ("({X} | \"a\") ~ ({X} | \"b\")", " ~ ({X} | \"c\")"),
+    ("(\"a\" | {X}) ~ (\"b\" | {X})", " ~ (\"c\" | {X})"),
+    ("{X}? ~ \";\" ~ {X}", " ~ {X}?"),
+    ("{X} ~ (\";\" ~ {X})?", " ~ (\",\" ~ {X})?"),
+    ("{X} ~ (\"+\" ~ {X})*", " ~ (\"-\" ~ {X})*"),
+    ("{X}* ~ \";\" ~ {X}", " ~ {X}*"),
+    ("{X}+ ~ \";\" ~ {X}", " ~ {X}+"),
+    ("({X} ~ \";\")+ ~ {X}", " ~ (\",\" ~ {X})+"),
+    ("{X}{2}", " ~ {X}"),
+    ("{X}{1,2} ~ \";\"", " ~ {X}{,2}"),
+    ("&{X} ~ {X}", " ~ &{X}"),
+    ("!({X} ~ \";\") ~ {X}", " ~ !({X} ~ \",\")"),
+    ("PUSH({X}) ~ {X}", " ~ PUSH({X})"),
+    ("PUSH({X}) ~ \";\" ~ {X} ~ POP", " ~ {X}"),
+    ("{X} ~ \";\" ~ {X} | \"a\"", " | {X}"),
+    ("\"a\" | {X} ~ \";\" ~ {X}", " ~ {X}"),
+];
+/// the last rule of the chain: fails and progresses / cannot fail / does not progress / touches the stack
+const LAD_LEAVES: [&str; 12] = ["\"x\"", "'a'..'z'", "ANY", "^\"x\" ~ \"y\"", "\"x\" | \"y\"", "\"\"", "\"x\"?", "\"x\"*", "!\"x\"", "PUSH(\"x\")", "\"x\" ~ POP", "PEEK ~ \"x\""];
+/// where the first rule of the chain is used from: the places at which a pass of the validator or the optimizer asks a question
+/// about an operand (`{X}` = the first rule; `{E}` = the name of the using rule); "" = the chain alone
+const LAD_ENTRIES: [&str; 20] = [
+    "{E} = { {X}* }", "{E} = { {X}+ }", "{E} = { {X}? }", "{E} = { {X}{2,} }", "{E} = { {X} | \"z\" }", "{E} = { \"z\" | {X} }", "{E} = { {X} ~ \"z\" }", "{E} = { \"z\" ~ {X} }",
+    "{E} = { ({X} ~ \"z\")* }", "{E} = { (\"z\" ~ {X})* }", "{E} = { (\"z\" | {X})+ }", "{E} = { !{X} ~ ANY }", "{E} = { &{X} ~ ANY }", "{E} = { PUSH({X}) ~ POP }",
+    "WHITESPACE = _{ {X} }\n{E} = { \"p\" ~ \"q\" }", "COMMENT = _{ {X} }\n{E} = { \"p\" ~ \"q\" }", "{E} = @{ (!{X} ~ ANY)* }", "{E} = @{ (!({X} | \"z\") ~ ANY)* ~ \"z\" }",
+    "{E} = ${ \"z\" ~ ({X} | \"z\")? }", "",
+];
+
+struct Ladder { links: Vec<usize>, k: usize, leaf: usize, entry: usize, modifier: &'static str, first: bool, descending: bool, stack_mid: bool }
+
+fn ladder_text(l: &Ladder, depth: usize) -> String {
+    let name = |i: usize| format!("s{}", i);
+    let mut rules: Vec<String> = vec![];
+    for i in 1..depth {
+        let (two, more) = LAD_LINKS[l.links[i % l.links.len()]];
+        let mut body = two.to_string();
+        for _ in 2..l.k { body.push_str(more); }
+        let mut body = body.replace("{X}", &name(i + 1));
+        // a stack operation half-way down: a query about the stack is answered there, the other questions go on
+        if l.stack_mid && i == depth / 2 { body = format!("({}) ~ DROP?", body); }
+        rules.push(format!("{} = {}{{ {} }}", name(i), l.modifier, body));
+    }
+    rules.push(format!("{} = {{ {} }}", name(depth), LAD_LEAVES[l.leaf]));
+    if l.descending { rules.reverse(); }
+    let e = LAD_ENTRIES[l.entry].replace("{X}", &name(1)).replace("{E}", if l.first { "A0" } else { "zz" });
+    if !e.is_empty() { if l.first { rules.insert(0, e); } else { rules.push(e); } }
+    rules.join("\n") + "\n"
+}
+
+/// One ladder, deepened step by step (8, 12, .. `max_depth` rules).  When the running time starts to multiply with the depth, the
+/// next depth is the one at which the extrapolated time passes the limit of the property, so that a ladder on which the front end is
+/// exponential costs one slow evaluation (seconds), not one per depth.  Returns true when an evaluation was slow or the worker died.
+fn ladder_run<W: Write>(out: &mut Out<W>, l: &Ladder, max_depth: usize) -> bool {
+    let mut d = 8usize.min(max_depth);
+    let mut prev: Option<(usize, u128)> = None;
+    loop {
+        let t = ladder_text(l, d);
+        let c = out.run("lad", &t);
+        let ms = out.last_ms;
+        if c == "TIMEOUT" || c == "CRASH" {
+            writeln!(out.w, "#LADSLOW\tlinks={:?}\tk={}\tleaf={}\tentry={}\tdepth={}\tms={}\tclass={}", l.links, l.k, l.leaf, l.entry, d, ms, c).unwrap();
+            return true;
+        }
+        if d >= max_depth { return false; }
+        let mut next = (d + 4).min(max_depth);
+        if let Some((pd, pms)) = prev {
+            if ms >= 24 && ms >= 3 * pms.max(1) {
+                // per-rule factor of the time, and the depth at which it passes 1.5 x the limit
+                let r = (ms as f64 / pms.max(1) as f64).powf(1.0 / (d - pd) as f64);
+                let need = ((1.5 * SOFT_MS as f64) / ms as f64).ln() / r.ln();
+                next = (d + (need.ceil().max(1.0) as usize)).min(max_depth);
+            }
+        }
+        prev = Some((d, ms));
+        d = next;
+    }
+}
+
+fn random_ladder(r: &mut Rng) -> Ladder {
+    let nl = LAD_LINKS.len() as u64;
+    // mostly one kind of link on every level (the multiplication needs every level), sometimes two kinds alternating
+    let links = if r.chance(3, 4) { vec![r.below(nl) as usize] } else { vec![r.below(nl) as usize, r.below(nl) as usize] };
+    Ladder { links, k: if r.chance(2, 3) { 2 } else { 3 },
+             // a leaf that fails and progresses three times out of four: the others end most questions at the first operand
+             leaf: if r.chance(3, 4) { r.below(5) as usize } else { r.below(LAD_LEAVES.len() as u64) as usize },
+             entry: r.below(LAD_ENTRIES.len() as u64) as usize,
+             modifier: ["", "", "", "", "", "_", "@", "$", "!"][r.below(9) as usize],
+             first: r.chance(1, 2), descending: r.chance(1, 3), stack_mid: r.chance(1, 6) }
+}
+
+/// ladders <seed> <n> <max slow> <max depth>: `n` ladders; every link with a plain entry first (in an order drawn from the seed), then
+/// random combinations.  Stops after `max slow` ladders that were slow / killed (each costs seconds).
+fn ladders<W: Write>(out: &mut Out<W>, rng: &mut Rng, n: u64, max_slow: u64, max_depth: usize) {
+    out.hard_ms = ESC_HARD_MS;
+    out.parent_forest = true;
+    let mut order: Vec<usize> = (0..LAD_LINKS.len()).collect();
+    shuffle(rng, &mut order);
+    let (mut slow, mut done, mut stopped) = (0u64, 0u64, 0u64);
+    for i in 0..n {
+        let l = if (i as usize) < order.len() {
+            // the systematic part: every link, two mentions, a literal leaf, used from the places that start each kind of question
+            Ladder { links: vec![order[i as usize]], k: 2, leaf: 0, entry: [0usize, 4, 6, 1, 5, 2][rng.below(6) as usize], modifier: "", first: rng.chance(1, 2), descending: false, stack_mid: false }
+        } else { random_ladder(rng) };
+        if ladder_run(out, &l, max_depth) { slow += 1; }
+        done += 1;
+        if slow >= max_slow { stopped = 1; break; }
+    }
+    writeln!(out.w, "#LADDERS\tladders={}\tladders_slow={}\tladders_stopped_early={}", done, slow, stopped).unwrap();
+    out.hard_ms = HARD_MS;
+    out.parent_forest = false;
+}
+
+// ------------------------------------------------------------------------------------------------
 // escalated search: starts from texts on which the implementation and the model disagree
 // ------------------------------------------------------------------------------------------------
 const ESC_HARD_MS: u64 = 6000;
@@ -800,6 +942,7 @@ fn escalate<W: Write>(out: &mut Out<W>, path: &str, seed: u64, budget: u64) {
     let content = std::fs::read_to_string(path).unwrap_or_default();
     let mut rng = Rng::new(seed);
     out.hard_ms = ESC_HARD_MS;
+    out.parent_forest = true;
     let mut from = 0;
     for line in content.lines() {
         let mut f = line.split('\t');
@@ -837,7 +980,7 @@ fn main() {
     if mode == "worker8" { worker(8 << 20); return; }
     let stdout = io::stdout();
     let mut out = Out { w: BufWriter::with_capacity(1 << 20, stdout.lock()), worker: None, small: None, n: 0, seen: HashSet::new(), nontriv: 0,
-                        counts: HashMap::new(), contracts: 0, max_ms: 0, slowest: String::new(), hard_ms: HARD_MS };
+                        counts: HashMap::new(), contracts: 0, max_ms: 0, slowest: String::new(), hard_ms: HARD_MS, parent_forest: false, last_ms: 0 };
     {
         // BUILTINS of meta/src/validator.rs (private there): the fixed names plus the Unicode property names
         let mut b: Vec<&str> = vec!["ANY", "DROP", "EOI", "PEEK", "PEEK_ALL", "POP", "POP_ALL", "SOI", "ASCII_DIGIT", "ASCII_NONZERO_DIGIT", "ASCII_BIN_DIGIT",
@@ -895,8 +1038,10 @@ fn main() {
         // cyc <seed> <n> [extras]: grammars around rule-reference cycles
         "cyc" => { let mut rng = Rng::new(arg_u64(2, 1)); cycles(&mut out, &mut rng, arg_u64(3, 300), arg(4) == "extras"); }
         // escalate <file> <seed> <budget per text>: the search that starts from disagreeing cases
+        // lad <seed> <n> <max slow> [max depth]: ladders of rules (every rule mentions the next one two or three times)
+        "lad" => { quiet_panics(); let mut rng = Rng::new(arg_u64(2, 1)); ladders(&mut out, &mut rng, arg_u64(3, 40), arg_u64(4, 4), arg_u64(5, 40) as usize); }
         "escalate" => { quiet_panics(); escalate(&mut out, &arg(2), arg_u64(3, 1), arg_u64(4, 400)); }
-        _ => { eprintln!("usage: c09 probe|one|file|fixed|ship|rnd|gen|cyc|deep|expo|scale|escalate ..."); }
+        _ => { eprintln!("usage: c09 probe|one|file|fixed|ship|rnd|gen|cyc|lad|deep|expo|scale|escalate ..."); }
     }
     out.summary();
 }
